@@ -58,8 +58,8 @@ struct InvocationCostInfoProviderForEqGen<
     TokenUsages: Fn(CostTokenType) -> usize,
     ApChangeVarValue: Fn() -> usize,
 > {
-    /// Registry for providing the sizes of the types.
-    type_sizes: &'a TypeSizeMap,
+    /// The program info, for providing the sizes of the types and the circuit information.
+    program_info: &'a ProgramRegistryInfo,
     /// Closure providing the token usages for the invocation.
     token_usages: TokenUsages,
     /// Closure providing the ap changes for the invocation.
@@ -71,7 +71,7 @@ impl<TokenUsages: Fn(CostTokenType) -> usize, ApChangeVarValue: Fn() -> usize>
     for InvocationCostInfoProviderForEqGen<'_, TokenUsages, ApChangeVarValue>
 {
     fn type_size(&self, ty: &ConcreteTypeId) -> usize {
-        self.type_sizes[ty].into_or_panic()
+        self.program_info.type_sizes[ty].into_or_panic()
     }
 
     fn token_usages(&self, token_type: CostTokenType) -> usize {
@@ -82,8 +82,8 @@ impl<TokenUsages: Fn(CostTokenType) -> usize, ApChangeVarValue: Fn() -> usize>
         (self.ap_change_var_value)()
     }
 
-    fn circuit_info(&self, _ty: &ConcreteTypeId) -> &CircuitInfo {
-        unimplemented!("circuits are not supported for old gas solver");
+    fn circuit_info(&self, ty: &ConcreteTypeId) -> &CircuitInfo {
+        ComputeCostInfoProvider::circuit_info_of(self.program_info, ty)
     }
 }
 
@@ -145,6 +145,21 @@ impl<'a> ComputeCostInfoProvider<'a> {
     fn new(program_info: &'a ProgramRegistryInfo) -> Self {
         Self { program_info }
     }
+
+    /// Returns the circuit information of the circuit type `ty`.
+    fn circuit_info_of(
+        program_info: &'a ProgramRegistryInfo,
+        ty: &ConcreteTypeId,
+    ) -> &'a CircuitInfo {
+        let CoreTypeConcrete::Circuit(CircuitTypeConcrete::Circuit(ConcreteCircuit {
+            circuit_info,
+            ..
+        })) = program_info.registry.get_type(ty).unwrap()
+        else {
+            panic!("Expected a circuit type, got {ty:?}.")
+        };
+        circuit_info
+    }
 }
 
 /// Implementation of [CostInfoProvider] for [ComputeCostInfoProvider].
@@ -154,14 +169,7 @@ impl CostInfoProvider for ComputeCostInfoProvider<'_> {
     }
 
     fn circuit_info(&self, ty: &ConcreteTypeId) -> &CircuitInfo {
-        let CoreTypeConcrete::Circuit(CircuitTypeConcrete::Circuit(ConcreteCircuit {
-            circuit_info,
-            ..
-        })) = self.program_info.registry.get_type(ty).unwrap()
-        else {
-            panic!("Expected a circuit type, got {ty:?}.")
-        };
-        circuit_info
+        Self::circuit_info_of(self.program_info, ty)
     }
 }
 
@@ -209,9 +217,14 @@ pub fn calc_gas_postcost_info<ApChangeVarValue: Fn(StatementIdx) -> usize>(
                 idx,
                 libfunc,
                 &InvocationCostInfoProviderForEqGen {
-                    type_sizes: &program_info.type_sizes,
+                    program_info,
                     token_usages: |token_type| {
-                        precost_gas_info.variable_values[&(idx, token_type)].into_or_panic()
+                        precost_gas_info
+                            .variable_values
+                            .get(&(idx, token_type))
+                            .copied()
+                            .unwrap_or_default()
+                            .into_or_panic()
                     },
                     ap_change_var_value: || ap_change_var_value(idx),
                 },
